@@ -57,7 +57,7 @@ Fixpoint nest (chain : list deriv) (inner : list (list N * value)) : list (list 
 Definition expected (chain : list deriv) (r : record) : list (list N * jval) :=
   [(k_time, JStr (time_txt r)); (k_level, JStr (level_text (lvl r)))]
   ++ (match src r with
-      | Some (file, line) => [(k_source, JObj [(k_file, JStr (sanitize file)); (k_line, JNum (to_dec_z line))])]
+      | Some (file, line) => [(k_source, JObj [(k_file, JStr (sanitize (source_file file))); (k_line, JNum (to_dec_z line))])]
       | None => []
       end)
   ++ [(k_msg, JStr (sanitize (msg r)))]
@@ -70,7 +70,9 @@ Definition clean_text (t : list N) : bool := forallb clean_byte t.
 
 Definition no_newline (s : list N) : bool := forallb (fun b => negb (b =? 10)) s.
 
-(** encoding/json's encoder output (minus its final newline): exactly one JSON value, no newline inside *)
+(** encoding/json's encoder output (minus its final newline): exactly one JSON value, no newline inside.
+    Nothing is demanded about UTF-8: encoding/json copies a Marshaler's bytes unchecked, and the parser
+    reads an invalid byte inside a string as U+FFFD, exactly what the property promises. *)
 Definition wf_raw (r : raw) : bool :=
   match r with
   | ROk b => match parse_exact b with Some _ => no_newline b | None => false end
@@ -97,3 +99,32 @@ Definition wf_deriv (d : deriv) : bool :=
 Definition wf_chain (c : list deriv) : bool := forallb wf_deriv c.
 
 Definition wf_record (r : record) : bool := clean_text (time_txt r) && wf_attrs (attrs r).
+
+(** ** the line is UTF-8
+    The parser reads invalid UTF-8 inside strings leniently because encoding/json hands a careless Marshaler's bytes
+    through.  glb's own writer must never be the source of such bytes: whenever every embedded encoding/json text is
+    valid UTF-8, the whole line has to be. *)
+Fixpoint uv (fuel : nat) (s : list N) : bool :=
+  match fuel with
+  | O => is_empty s
+  | S f =>
+    match s with
+    | [] => true
+    | b :: t =>
+      if b <? 128 then uv f t
+      else let d := decode s in if invalid d then false else uv f (skipn (snd d) s)
+    end
+  end.
+Definition utf8_ok (s : list N) : bool := uv (length s) s.
+
+Fixpoint raws_utf8_value (v : value) : bool :=
+  match v with
+  | VRaw (ROk b) => utf8_ok b
+  | VGroup l => (fix go (l : list (list N * value)) : bool :=
+                   match l with [] => true | (_, v') :: t => raws_utf8_value v' && go t end) l
+  | _ => true
+  end.
+Fixpoint raws_utf8_attrs (l : list (list N * value)) : bool :=
+  match l with [] => true | (_, v) :: t => raws_utf8_value v && raws_utf8_attrs t end.
+Definition raws_utf8 (c : list deriv) (r : record) : bool :=
+  forallb (fun d => match d with DAttrs al => raws_utf8_attrs al | DGroup _ => true end) c && raws_utf8_attrs (attrs r).
